@@ -162,6 +162,7 @@ class EngineA:
         self.prop = prop  # "C04" or "C19"
         self.steer = set(steer)
         self._integer = False
+        self._val_scale = 1.0
 
     # ---------------------------------------------------------------- generation
     def run(self, run_seed: int, tier: str) -> RunResult:
@@ -189,11 +190,14 @@ class EngineA:
         nz = list(nz)
         sw.shuffle(nz)  # stored order of the sparse tensor: arbitrary
         integer = sw.random() < 0.15  # integer-typed storage; such runs only ever write integral values
+        # magnitude of the values of this run (exact powers of two): only an exact zero is "zero"
+        val_scale = 1.0 if integer else sw.choice([1.0, 1.0, 1.0, 1.0, 2.0**-40, 2.0**-200, 2.0**60])
         cfg = {
             "shape": shape,
             "subs": [list(p) for p in nz],
-            "vals": [float(-(i + 1)) if integer else float(-(i + 1) - 0.25) for i in range(len(nz))],
+            "vals": [float(-(i + 1)) if integer else float(-(i + 1) - 0.25) * val_scale for i in range(len(nz))],
             "integer": integer,
+            "val_scale": val_scale,
             "c_order": sw.random() < 0.2,
             "n_steps": sw.randint(4, 30 if tier == "thorough" else 24),
             "p_read": sw.choice([0.2, 0.35, 0.5]),
@@ -209,6 +213,7 @@ class EngineA:
             cfg["w_ops"]["w_subs"] = 1
         res.init = cfg
         self._integer = integer
+        self._val_scale = val_scale
         world = self._start(cfg, res)
         if world is None:
             return self._finish(res)
@@ -343,7 +348,7 @@ class EngineA:
 
     def _next_val(self, counter) -> float:
         counter[0] += 1
-        return float(counter[0]) if self._integer else counter[0] + 0.5
+        return float(counter[0]) if self._integer else (counter[0] + 0.5) * self._val_scale
 
     def _triggers(self, m: Model, step) -> set:
         """Names of known-finding triggers that ``step`` would hit in state ``m``."""
